@@ -259,6 +259,8 @@ def _leaf(rng, cfg, kinds=None):
             choices += ["kwterm", "kwterm"]
         if "n" in fields:
             choices += ["numrange", "numterm"]
+        if "nu" in fields:
+            choices += ["numrange_u", "numrange_u"]
         if "b" in fields:
             choices += ["boolterm"]
         if "dt" in fields:
@@ -296,6 +298,15 @@ def _leaf(rng, cfg, kinds=None):
         if rng.random() < 0.2:
             b = None
         return ["termrange", rng.choice(tfields), a, b, rng.random() < 0.5, rng.random() < 0.5]
+    if c == "numrange_u":
+        # an unsigned field: ranges that end at small values, at the top of the type, open ends
+        pick = lambda: rng.choice((0, 1, 5, 20, 255, 256, 65535, rng.randint(0, 30), rng.randint(0, 65535)))
+        a, b = sorted((pick(), pick()))
+        if rng.random() < 0.2:
+            a = None
+        if rng.random() < 0.2:
+            b = None
+        return ["numrange", "nu", a, b, rng.random() < 0.5, rng.random() < 0.5]
     if c == "numrange":
         a, b = sorted((rng.randint(-60, 60), rng.randint(-60, 60)))
         if rng.random() < 0.2:
